@@ -65,6 +65,15 @@ static void check_state(const Family& f, const std::string& label, Obj& o, Repor
       // serialization can be a mutating operation (t-digest compresses): apply it to all three or to none
       { Bytes x = o.ser(0), y = r1->ser(0), z = r2->ser(0); if (!(f.unordered_entries || o.unordered_layout()) && (x != y || x != z)) rep.count("continued_images_differ_bytewise(diagnostic)"); }
     }
+    // every continuation also as the FIRST operation on a freshly restored object (in the chain above a later continuation meets an
+    // object that earlier ones have already grown): no exception, no memory error, and both restored forms agree
+    if (r1 && r2) for (size_t i = 1; i < o.ncont(); ++i) {
+      ObjP q1 = f.from_bytes(b0.data(), b0.size()); std::istringstream is3(std::string(b0.begin(), b0.end())); ObjP q2 = f.from_stream(is3);
+      { Sched sc(i & 1, 77 + i); q1->cont(i); } { Sched sc(i & 1, 77 + i); q2->cont(i); }
+      std::string qa = q1->obs(), qb = q2->obs();
+      c.ok("fresh-restored-object-takes-continuation", qa == qb, "after " + o.cont_name(i) + " as the first operation: restored from bytes " + qa.substr(0, 200) + " VS restored from stream " + qb.substr(0, 200));
+      rep.transitions++;
+    }
   } catch (const std::exception& e) { c.fail("unexpected-exception", std::string("threw: ") + e.what()); }
   if (asan_errors() != a0) c.fail("asan", "AddressSanitizer report while round-tripping this state");
   if (!ledger().errors.empty()) { c.fail("allocator-discipline", ledger().errors[0]); ledger().errors.clear(); }
